@@ -33,6 +33,12 @@ structure Config.WellFormedDistance (c : Config α) (du : DistanceUnit) : Prop w
     i < c.cost.vehicleRates.length ∧ i < c.cost.networkRates.length
   /-- no frontier model errs on an edge of the graph (road-class tables are long enough) -/
   frontier_total : ∀ e, e < c.edges.length → ∃ b, frontierValid c.frontier e none = .ok b
+  /-- the great-circle table holds distances: no entry is the marker "the haversine function refused
+  the coordinates" (every vertex lies in [-180, 180] × [-90, 90]).  NOT something the loader
+  guarantees — the vertex file is read without a range check —, a premise on the network: with one
+  vertex out of range the estimate of that vertex is a traversal error and the run fails, Dijkstra
+  included (`Model/Instance.lean`, `estimate`) -/
+  gc_nonneg : ∀ x ∈ c.gc, 0 ≤ x
 
 /-- the invariant of the (last edge, state) pairs -/
 def Config.StateOK (c : Config α) (le : Option Nat) (st : List α) : Prop :=
@@ -144,8 +150,10 @@ theorem Config.h_total (c : Config α) {du : DistanceUnit} (W : c.WellFormedDist
   have hsome := (C07.cost_estimate_isSome_iff c.cost st dst).mpr
     (c.inRange_of_wf W hlen (hlen2.trans hlen)).toV
   obtain ⟨est, hes⟩ := Option.isSome_iff_exists.1 hsome
+  have hnn : ¬ (c.gc[v] < (zero : α)) := by
+    rw [zero_eq]; exact not_lt.mpr (W.gc_nonneg _ (List.getElem_mem hv))
   have hres : ∃ x, estimate c v st = .ok x := by
-    simp only [estimate, List.getElem?_eq_getElem hv, hest, hes]
+    simp only [estimate, List.getElem?_eq_getElem hv, hnn, if_false, hest, hes]
     exact ⟨_, rfl⟩
   obtain ⟨x, hx⟩ := hres
   have := estimate_eq c v st x hx
@@ -369,6 +377,10 @@ theorem exC_wellFormed : exC.WellFormedDistance .meters where
   frontier_total := by
     intro e _
     by_cases h : e = 6 <;> simp [frontierValid, FrontierM.valid, exC, h]
+  gc_nonneg := by
+    intro x hx
+    simp only [exC, List.mem_cons, List.not_mem_nil, or_false] at hx
+    rcases hx with rfl | rfl | rfl | rfl | rfl <;> exact le_refl _
 
 theorem exC_graphOK (source : Nat) (hs : source < 5) (hasT : Bool) : exC.GraphOK source hasT where
   adj := adj_of exC rfl rfl rfl
